@@ -888,6 +888,7 @@ from ..mutants import Mut  # noqa: E402
 _E = "urwid/display/escape.py"
 _R = "urwid/display/_raw_display_base.py"
 MUTANTS = [
+    Mut("twin-alarm-handle-test-order", "urwid/display/_raw_display_base.py", "urwid.display._raw_display_base.Screen.parse_input", "if self._input_timeout is not None and event_loop:", "if event_loop and self._input_timeout is not None:", twin=True),
     Mut("alarm-handle-truthiness", "urwid/display/_raw_display_base.py", "urwid.display._raw_display_base.Screen.parse_input", "if self._input_timeout is not None and event_loop:", "if self._input_timeout and event_loop:", "SENTINEL|display._raw_display_base.Screen.parse_input|parse_input: alarm handle tested for truthiness"),
     Mut("sync-completion-ignores-wake-reason", "urwid/display/_raw_display_base.py", "urwid.display._raw_display_base.Screen.get_input", "wait_for_more=len(codes) > pending or resize_only)", "wait_for_more=len(codes) > pending)", "FLOW|display._raw_display_base.Screen.get_input|get_input: wake-up reason not part of wait_for_more"),
     Mut("twin-sync-completion-wake-reason-inline", "urwid/display/_raw_display_base.py", "urwid.display._raw_display_base.Screen.get_input", "wait_for_more=len(codes) > pending or resize_only)", "wait_for_more=len(codes) > pending or ready == [self._resize_pipe_rd.fileno()])", twin=True),
